@@ -5,6 +5,7 @@
 //   named containers     ECUC-CONTAINER-VALUE   name in {Aaa, Bbb, Ccc} x definition in {X, Y, -} x index in {1, 2, 10, -}
 //   unnamed values       ECUC-NUMERICAL-PARAM-VALUE  definition in {p, q, -} x index in {1, 2, -} x value in {1, 2, 10}
 //   references           ECUC-REFERENCE-VALUE   definition in {r, -} x DEST in {SYSTEM, I-SIGNAL, -} x value in {/a, /b}
+//   language texts       L-4 in LONG-NAME       L in {AA, DE, EN, FR} x S in {x, -} x text in {Abc, Motor}   (differ only in attributes / text)
 // ---------------------------------------------------------------------------------------------------------------------------------
 fn api_sortperm(_args: &[String]) {
     use autosar_data::*;
@@ -25,11 +26,17 @@ fn api_sortperm(_args: &[String]) {
         let d = if dest == "-" { String::new() } else { format!(" DEST=\"{}\"", dest) };
         refs.push(format!("<ECUC-REFERENCE-VALUE>{}<VALUE-REF{}>{}</VALUE-REF></ECUC-REFERENCE-VALUE>", opt("DEFINITION-REF", def, " DEST=\"ECUC-REFERENCE-DEF\""), d, val));
     } } }
+    // texts in several languages: siblings that differ only in an attribute that is not DEST (item 7 of the chain), or only in their text
+    let mut langs: Vec<String> = Vec::new();
+    for lang in ["AA", "DE", "EN", "FR"] { for text in ["Abc", "Motor"] { for s in ["", " S=\"x\""] {
+        langs.push(format!("<L-4 L=\"{}\"{}>{}</L-4>", lang, s, text));
+    } } }
     let wrap = |kind: usize, items: &[&String]| -> String {
         let inner: String = items.iter().map(|s| s.as_str()).collect();
         match kind {
             0 => format!("{}{}{}", head, inner, tail),
             1 => format!("{}<ECUC-CONTAINER-VALUE><SHORT-NAME>C</SHORT-NAME><PARAMETER-VALUES>{}</PARAMETER-VALUES></ECUC-CONTAINER-VALUE>{}", head, inner, tail),
+            3 => format!("{}<ECUC-CONTAINER-VALUE><SHORT-NAME>C</SHORT-NAME><LONG-NAME>{}</LONG-NAME></ECUC-CONTAINER-VALUE>{}", head, inner, tail),
             _ => format!("{}<ECUC-CONTAINER-VALUE><SHORT-NAME>C</SHORT-NAME><REFERENCE-VALUES>{}</REFERENCE-VALUES></ECUC-CONTAINER-VALUE>{}", head, inner, tail),
         }
     };
@@ -43,7 +50,7 @@ fn api_sortperm(_args: &[String]) {
     };
     let perms = [[0usize, 1, 2], [0, 2, 1], [1, 0, 2], [1, 2, 0], [2, 0, 1], [2, 1, 0]];
     let (mut n, mut triples) = (0u64, 0u64);
-    for (kind, pool) in [&containers, &params, &refs].into_iter().enumerate() {
+    for (kind, pool) in [&containers, &params, &refs, &langs].into_iter().enumerate() {
         for i in 0..pool.len() { for j in (i + 1)..pool.len() { for k in (j + 1)..pool.len() {
             let t = [&pool[i], &pool[j], &pool[k]];
             // named siblings need distinct names
